@@ -10,7 +10,8 @@ import itertools
 from lib import codec, gen, vf
 import ber
 
-FAULTS = ["deliver", "drop", "dup", "late", "wrongid", "wrongcomm", "wrongver", "trunc", "garbage_then_ok", "skip_then_ok", "report"]
+FAULTS = ["deliver", "drop", "dup", "late", "wrongid", "wrongcomm", "wrongver", "trunc", "garbage_then_ok", "skip_then_ok", "report",
+          "id_minus_2_31", "id_plus_2_32", "id_plus_1"]
 
 
 def value_vb(k):
@@ -33,9 +34,13 @@ def build_script(word):
         elif f == "late":
             own = []
         elif f == "wrongid":
-            own = [{"vbs": value_vb(k).hex(), "rid": 12345 + k, "_class": "skip", "_k": k}]
+            own = [{"vbs": value_vb(k + 800).hex(), "rid": 12345 + k, "_class": "skip", "_k": k + 800}]
+        elif f in ("id_minus_2_31", "id_plus_2_32", "id_plus_1"):
+            # an id that differs from the outstanding one only above bit 30 / by one: never the outstanding id
+            shift = {"id_minus_2_31": "same-2147483648", "id_plus_2_32": "same+4294967296", "id_plus_1": "same+1"}[f]
+            own = [{"vbs": value_vb(k + 500).hex(), "rid": shift, "_class": "never", "_k": k + 500}, ok]
         elif f == "wrongcomm":
-            own = [{"vbs": value_vb(k).hex(), "community": b"other".hex(), "_class": "skip", "_k": k}]
+            own = [{"vbs": value_vb(k + 900).hex(), "community": b"other".hex(), "_class": "skip", "_k": k + 900}]
         elif f == "wrongver":
             own = [{"vbs": value_vb(k).hex(), "version": 3, "_class": "fail", "_k": k}]
         elif f == "trunc":
@@ -43,7 +48,7 @@ def build_script(word):
         elif f == "garbage_then_ok":
             own = [{"raw": "3003020100", "_class": "fail", "_k": k}, ok]
         elif f == "skip_then_ok":
-            own = [{"vbs": value_vb(k).hex(), "rid": 777, "_class": "skip", "_k": k}, ok]
+            own = [{"vbs": value_vb(k + 700).hex(), "rid": 777, "_class": "skip", "_k": k + 700}, ok]
         elif f == "report":
             own = [{"pdu_tag": 0xA8, "vbs": value_vb(k).hex(), "rid": 999, "_class": "report", "_k": k}]
         replies.append(carry + own)
@@ -74,6 +79,8 @@ def simulate(word, replies, rids):
                     res = ("value", sp["_k"])
                     break
                 continue
+            if cls == "never":
+                continue
             if cls == "skip":
                 rid = sp.get("rid")
                 if rid is not None and rid == rids[k] and "community" not in sp:
@@ -94,7 +101,9 @@ def main(argv):
     if not cd.ok:
         return c.finish("n/a")
     rng = c.rng
-    words = [w for n in (1, 2) for w in itertools.product(FAULTS, repeat=n)]
+    words = [(f,) for f in FAULTS]
+    pairs = list(itertools.product(FAULTS, repeat=2))
+    words += pairs if thorough else rng.sample(pairs, 110)
     for _ in range(400 if thorough else 60):
         words.append(tuple(rng.choice(FAULTS) for _ in range(rng.choice([3, 4]))))
     if thorough:
@@ -111,7 +120,7 @@ def main(argv):
                 for k in range(len(w)):
                     clean = [{kk: vv for kk, vv in sp.items() if not kk.startswith("_")} for sp in replies[k]]
                     steps.append({"op": "get", "args": ["1.3.6.1.9.%d" % k], "replies": [clean]})
-                scs.append({"version": ver, "mode": mode, "timeout": 0.04, "community": "public", "steps": steps, "_word": w, "_replies": replies})
+                scs.append({"version": ver, "mode": mode, "timeout": 0.03, "community": "public", "steps": steps, "_word": w, "_replies": replies})
     res, log = vf.run_api_worker("C04", {"scenarios": [{k: v for k, v in sc.items() if not k.startswith("_")} for sc in scs]}, timeout=1500)
     n = 0
     dis = 0
@@ -205,7 +214,7 @@ def main(argv):
                                              % (rid, [x.hex()[:60] for x in ds], ml[:100], exp[:100])]
     return c.finish(
         rule="fault scripts: all words of length <= 2 over %d per-reply faults (deliver, drop, duplicate, delay past the next request, "
-             "wrong request-id, wrong community, wrong version, truncate, garbage then reply, skippable then reply, report) plus random "
+             "wrong request-id (random, +1, -2^31, +2^32), wrong community, wrong version, truncate, garbage then reply, skippable then reply, report) plus random "
              "words of length 3..4, on v1/v2c sync/async sessions: %d scripts; expected outcome from the ids seen on the wire; "
              "plus %d synthetic arrival lists through the receive-loop model; non-trivial = at least two requests / datagrams"
              % (len(FAULTS), n, len(lines)),
